@@ -981,6 +981,7 @@ where
                         | SyntaxKind::RecordType
                         | SyntaxKind::ArrayType
                         | SyntaxKind::CodeType
+                        | SyntaxKind::UnionType
                 )
             } else {
                 false
